@@ -33,6 +33,9 @@ RecOK == ri > 0 =>
                 /\ Is(r.same_across_procs, 1, "result.independent_of_worker_count")
                 /\ Is(r.nfreqs_ok, 1, "returned_frequencies.one_per_component"))
       [] r.kind = "zero" -> Is(r.zero_ok, 1, "zero_amplitude.reduces_to_unmasked_extraction")
+      [] r.kind = "zerofreq" ->     \* frequency 0: the mask is the constant amp * cos(phase), added before and removed after extraction
+            /\ Is(r.helper_ok, 1, "zero_frequency.mask_is_added_and_removed(get_next_imf_mask)")
+            /\ Is(r.sift_ok, 1, "zero_frequency.mask_is_added_and_removed(mask_sift)")
       [] r.kind = "sched" -> Is(r.same, 1, "result.independent_of_schedule")
       [] OTHER -> Bad("unknown record kind")
 =============================================================================
